@@ -356,8 +356,8 @@ impl Context {
                 quote!(std::collections::BTreeSet<#item>)
             }
             Type::Map(def) => {
+                let value = self.rust_type_inner(this_type, def.value_type(), key);
                 let key = self.rust_type_inner(this_type, def.key_type(), true);
-                let value = self.rust_type(this_type, def.value_type());
                 quote!(std::collections::BTreeMap<#key, #value>)
             }
             Type::Reference(def) => self.type_path(this_type, def),
@@ -579,7 +579,7 @@ impl Context {
             },
             Type::Optional(def) => {
                 let option = self.option_ident(this_type);
-                let item_type = self.rust_type(this_type, def.item_type());
+                let item_type = self.rust_type_inner(this_type, def.item_type(), key);
                 BuilderItemConfig::Into {
                     type_: quote!(#option<#item_type>),
                 }
@@ -603,7 +603,7 @@ impl Context {
             Type::Map(def) => {
                 let into_iterator = self.into_iterator_ident(this_type);
                 let key_type = self.rust_type_inner(this_type, def.key_type(), true);
-                let value_type = self.rust_type(this_type, def.value_type());
+                let value_type = self.rust_type_inner(this_type, def.value_type(), key);
                 BuilderItemConfig::Custom {
                     type_: quote!(impl #into_iterator<Item = (#key_type, #value_type)>),
                     convert: quote!(|v| v.into_iter().collect()),
